@@ -33,8 +33,6 @@ PARTIAL = ["tree level: only the abstract error accumulation is proved (trunc_er
            "changes the state by at most max(1,|psi|) times the weight discarded there, that identifiers and "
            "relations are preserved and that every bond equals the length of a kept prefix are decided by the "
            "oracle on every run, not by a theorem",
-           "renormalising an all-zero spectrum returns NaN (theorem renorm_zero_nan; observation F-C10a): the "
-           "scale clause is stated for spectra with positive largest value only",
            "floating point: the model is exact; decisions closer than 1e-12 to a boundary are skipped unless "
            "the float computation is exact"]
 ASSUMPTIONS = ["svd_truncation is given a state with an orthogonality centre (it raises AssertionError otherwise: "
@@ -179,7 +177,7 @@ def value_boundary(s_float, rel, tot) -> bool:
     return any(lo <= _frac(x) <= hi for x in s_float)
 
 
-def check_selection(s_float, prm, new_s, s_trunc, f10a_open):
+def check_selection(s_float, prm, new_s, s_trunc):
     """Independent oracle for one call. Returns (problems, boundary, info). prm = dict of parameters."""
     probs = []
     s = [_frac(x) for x in s_float]
@@ -197,7 +195,9 @@ def check_selection(s_float, prm, new_s, s_trunc, f10a_open):
     if [_frac(x) for x in s_trunc] != s[k:]:
         probs.append(f"discarded vector {list(map(float, s_trunc))} is not s[{k}:]")
     kept = s[:k]
-    nan = any(math.isnan(float(x)) for x in new_s)
+    nan = any(not math.isfinite(float(x)) for x in list(new_s) + list(s_trunc))
+    if nan:
+        probs.append(f"non-finite value in the output: kept {list(map(float, new_s))} discarded {list(map(float, s_trunc))}")
     if not prm["renorm"]:
         if nan or [_frac(x) for x in new_s] != kept:
             probs.append(f"kept vector {list(map(float, new_s))} is not the prefix s[:{k}] (no renormalisation requested)")
@@ -210,10 +210,8 @@ def check_selection(s_float, prm, new_s, s_trunc, f10a_open):
             probs.append(f"kept vector {list(map(float, new_s))} is not a positive multiple of s[:{k}]")
     else:
         info["zero_renorm"] = True
-        if f10a_open and nan:
-            probs.append("F-C10a")
-        elif not nan and any(float(x) != 0.0 for x in new_s):
-            probs.append("renormalised zero spectrum is neither zero nor NaN")
+        if not nan and any(float(x) != 0.0 for x in new_s):
+            probs.append(f"renormalising the all-zero spectrum must leave zeros, got {list(map(float, new_s))}")
     # which k does the rule prescribe
     boundary = False
     if prm["sum_trunc"]:
@@ -445,11 +443,6 @@ def _params(prm):
                          sum_trunc=prm["sum_trunc"], sum_renorm=prm["sum_renorm"])
 
 
-def _f10a_open():
-    kf = common.load_known_findings("C10")
-    return "F-C10a" in kf and kf["F-C10a"].get("status") == "open"
-
-
 def _case_trunc(ctx, case, model_out):
     from pytreenet.util import tensor_splitting as ts
     s, prm = [float(x) for x in case["s"]], case["prm"]
@@ -468,7 +461,7 @@ def _case_trunc(ctx, case, model_out):
     except Exception as e:          # noqa: BLE001
         ctx.oracle_fail(case, f"truncate_singular_values raised {type(e).__name__}: {str(e)[:200]}")
         return
-    probs, boundary, info = check_selection(s, prm, new_s, s_trunc, _f10a_open())
+    probs, boundary, info = check_selection(s, prm, new_s, s_trunc)
     k = len(new_s)
     branch = ("cap" if prm["D"] != INF and info.get("sel", 0) > prm["D"] else
               "keep_one" if info.get("sel", 1) == 0 else "all" if k == len(s) else "rule")
@@ -481,7 +474,7 @@ def _case_trunc(ctx, case, model_out):
     ctx.tally("exact_tie_at_boundary", bool(info.get("tie")) and not boundary)
     ctx.sample(case, 4)
     if info.get("zero_renorm"):
-        ctx.tally("observations", "renorm of an all-zero spectrum (NaN, F-C10a)")
+        ctx.tally("observations", "renorm of an all-zero spectrum (stays zero)")
     if boundary:
         ctx.boundary_skipped += 1
     else:
@@ -491,10 +484,7 @@ def _case_trunc(ctx, case, model_out):
             ctx.corr_fail(case, f"model answered {m_main!r} for a valid call")
         else:
             mk, md = m_main.split(";")
-            if any(math.isnan(x) for x in new_s):
-                ik = f"nan*{k}"
-                same_k = ik == mk
-            elif mk.startswith("nan"):
+            if any(not math.isfinite(x) for x in new_s):
                 same_k = False
             else:
                 mvals = parse_rats(mk)
@@ -514,12 +504,8 @@ def _case_trunc(ctx, case, model_out):
             if [_frac(x) for x in direct] != parse_rats(m_direct):
                 ctx.corr_fail(case, f"value_truncation(s={s}, tot={prm['tot']}, rel={prm['rel']}): impl={direct} model={m_direct}")
     # ---- oracle
-    f10a = [q for q in probs if q == "F-C10a"]
-    rest = [q for q in probs if q != "F-C10a"]
-    if rest:
-        ctx.oracle_fail(case, f"selection rule: s={s} {prm}: " + "; ".join(rest[:3]))
-    elif f10a:
-        ctx.oracle_fail(case, f"renorm of the all-zero spectrum {s} returns NaN", finding="F-C10a")
+    if probs:
+        ctx.oracle_fail(case, f"selection rule: s={s} {prm}: " + "; ".join(probs[:3]))
 
 
 # ------------------------------------------------------------------ tree level
@@ -550,7 +536,7 @@ def _build_state(case):
             r = rng.randint(1, dims[0] - 1)
             t[r:] = t[:1] * rng.choice([0.0, 1.0])       # rows beyond r: zero or copies of row 0
         tensors[x] = t
-    tensors[0] = tensors[0] * rng.choice([1.0, 1.0, 0.01, 30.0])
+    tensors[0] = tensors[0] * rng.choice([1.0, 1.0, 0.01, 30.0, 1e-6, 1e4])
     ttns, canon, att, names = gen.build_network(TreeTensorNetworkState, par, bond, open_dims, rng, nprng,
                                                 order=order, tensors=tensors)
     if case["method"] == "svd" or rng.random() < 0.3:
@@ -603,14 +589,12 @@ def _case_tree(ctx, case):
         probs.append(f"identifiers / parent-child relations changed: {struct0} -> {struct1}")
     discarded = 0.0
     any_disc = False
-    f10a_open = _f10a_open()
     for s, new_s, s_tr in calls:
         tail = s[len(new_s):]
         discarded += float(np.sum(tail))
         any_disc = any_disc or len(tail) > 0
         # the selection rule on the live spectrum (float spectra: boundary cases are skipped)
-        q, boundary, _ = check_selection(list(s), prm, new_s, s_tr, f10a_open)
-        q = [x for x in q if x != "F-C10a"]
+        q, boundary, _ = check_selection(list(s), prm, new_s, s_tr)
         if boundary:
             ctx.boundary_skipped += 1
         else:
@@ -626,12 +610,15 @@ def _case_tree(ctx, case):
         nrm = float(np.linalg.norm(v0))
         if v1.shape != v0.shape:
             probs.append(f"physical dimensions changed: {v0.shape} -> {v1.shape}")
+        elif not np.all(np.isfinite(v1)):
+            probs.append("the truncated state contains non-finite entries")
         else:
             diff = float(np.linalg.norm(v1 - v0))
             if not any_disc and diff > 1e-10 * max(1.0, nrm):
                 probs.append(f"nothing was discarded but the state changed by {diff:.3e} (norm {nrm:.3e})")
-            if not prm["renorm"] and diff > discarded * max(1.0, nrm) + 1e-9:
-                probs.append(f"state changed by {diff:.6e} > discarded weight {discarded:.6e} * max(1, {nrm:.3e}) + 1e-9")
+            # every slack is relative to the scale of the data (round-off of the QR/SVD sweeps is ~1e-15 * norm)
+            if not prm["renorm"] and diff > (discarded + 1e-9) * max(1.0, nrm):
+                probs.append(f"state changed by {diff:.6e} > (discarded weight {discarded:.6e} + 1e-9) * max(1, {nrm:.3e})")
     ctx.count(("tree", case["seed"], case["n"], case["method"]), nontrivial=any_disc or len(calls) > 0, corr=False)
     ctx.tally("tree_method", case["method"])
     ctx.tally("tree_nodes", case["n"])
